@@ -166,7 +166,13 @@ def o_window(h):
         hd = hdr_of(data)
         if hd is not None and hd.is_request:
             st.setdefault('rx', {}).setdefault(bytes(sa.my_spi), {}).setdefault(hd.message_id, set()).add(int(hd.exchange_type))
-    # 4. never two requests outstanding: a new request (new bytes) is only emitted by an IKE_SA that was not waiting,
+    # 4. roles: the two ends of one IKE_SA (my SPI = the peer's peer SPI and vice versa) never claim the same role,
+    #    whoever started the exchange that created it (initial exchange or rekey) being the initiator
+    for a in h.w.A.sas():
+        for b in h.w.B.sas():
+            if bytes(a.my_spi) == bytes(b.peer_spi) and bytes(b.my_spi) == bytes(a.peer_spi) and bool(a.is_initiator) == bool(b.is_initiator):
+                out.append(('both-ends-same-role', 'both ends of IKE_SA %s/%s claim initiator=%s' % (a.my_spi.hex(), b.my_spi.hex(), a.is_initiator)))
+    # 5. never two requests outstanding: a new request (new bytes) is only emitted by an IKE_SA that was not waiting,
     #    or in the very step in which it consumed the response to the previous one
     return out
 
@@ -175,12 +181,56 @@ ORACLES = [o_window, CP.o_no_escape]
 VARIANTS = S.CONF_VARIANTS + [{'ike_lifetime': 60, 'ike_lifetime_b': 5000, 'dpd': 25}]
 
 
+def directed_rekeys(ctx, res):
+    """IKE_SA rekey started by either end of an IKE_SA established by either end, then exchanges in both directions on
+    the successor (CHILD_SA rekey from each side, DPD), every message delivered twice"""
+    for estab in 'AB':
+        for rekeyer in 'AB':
+            conf = {'dpd': 2000, 'ike_lifetime': 100 if rekeyer == 'A' else 5000, 'ike_lifetime_b': 100 if rekeyer == 'B' else 5000}
+            seed = ctx.rng.randrange(1 << 30)
+            with CP.History(seed, trace=ctx.driver is not None, **conf) as h:
+                h.oracles = list(ORACLES)
+                h.establish(estab)
+                h.op('tick', 106)
+                n = 0
+                while h.w.net and n < 40:
+                    dg = h.w.net[0]
+                    h.op('deliver', dg.id)
+                    h.op('dup', dg.id)
+                    n += 1
+                for ep in (h.w.A, h.w.B):
+                    kids = [c for s in ep.sas() for c in s.child_sas]
+                    if kids:
+                        h.op('expire', ep.name, kids[0].inbound_spi, False)
+                        n = 0
+                        while h.w.net and n < 40:
+                            dg = h.w.net[0]
+                            h.op('deliver', dg.id)
+                            h.op('dup', dg.id)
+                            n += 1
+                ok = h.settle()
+                stuck = [(ep.name, CP.ST[int(s.state)]) for ep in (h.w.A, h.w.B) for s in ep.sas() if int(s.state) != 10]
+                if stuck or len(h.w.A.sas()) != 1 or len(h.w.B.sas()) != 1:
+                    h.findings.append(('rekeyed-ike-sa-unusable', 'after an IKE_SA rekey by %s (established by %s) the exchanges on the '
+                                       'successor did not complete: %s' % (rekeyer, estab, stuck or 'IKE_SA lost'), len(h.ops) - 1))
+                res.evaluations += len(h.ops)
+                res.nontrivial.add(tuple(h.ops))
+                res.count('directed:ike-rekey-by-%s-established-by-%s' % (rekeyer, estab))
+                for key, what, at in h.findings[:2]:
+                    res.fail(key, what, {'seed': seed, 'conf': conf, 'faults': None, 'ops': S.ser_ops(h.ops[:at + 1]), 'oracle': key})
+                if h.tr is not None:
+                    h.tr.close()
+                    for line, want, out, c in h.tr.check(ctx.driver)[:3]:
+                        res.mismatch('miter (%s %s)' % (c['ep'], c['event']), MC.first_diff(want, out)[:300], out[:120])
+
+
 def run(ctx):
     res = Result()
     res.rule = ('seeded schedules of deliver / duplicate (immediate and late copies) / drop / reorder over the authentic traffic of '
                 'IKE_AUTH, CREATE_CHILD_SA new / rekey / IKE rekey, INFORMATIONAL delete / DPD on both roles, with INVALID_KE and '
                 'rekey variants; oracle after every operation; distinct = distinct schedule')
     S.campaign(ctx, res, ORACLES, ctx.scale(30, 500), ctx.scale(50, 100), variants=VARIANTS, dup=0.35, loss=0.08)
+    directed_rekeys(ctx, res)
     return res
 
 
